@@ -220,6 +220,7 @@ type selector struct {
 	ps      *isaac.BaseProposalSelector
 
 	mu       sync.Mutex
+	epoch    int                             // number of the current call; carried by the context given to Select
 	getNodes func(base.Height) ([]int, bool) // what GetNodesFunc answers during the current call (model ids, listed order)
 	nfail    int
 	failed   map[int]bool
@@ -269,6 +270,8 @@ func putPool(p *isaacdatabase.TempPool) {
 	}
 }
 
+type epochKey struct{}
+
 func newSelector(w *world, localid int, minwait time.Duration) *selector {
 	s := &selector{w: w, local: localid, minwait: minwait}
 	pool := getPool()
@@ -313,9 +316,15 @@ func newSelector(w *world, localid int, minwait time.Duration) *selector {
 		s.mu.Unlock()
 		return n, err
 	}
-	args.RequestFunc = func(_ context.Context, p base.Point, proposer base.Node, pb util.Hash) (base.ProposalSignFact, bool, error) {
+	args.RequestFunc = func(ctx context.Context, p base.Point, proposer base.Node, pb util.Hash) (base.ProposalSignFact, bool, error) {
 		id := w.id(proposer.Address())
 		s.mu.Lock()
+		if ep, _ := ctx.Value(epochKey{}).(int); ep != s.epoch {
+			// a request goroutine left over from an earlier call of this selector object (the code starts
+			// one per try and does not wait for it when the deadline comes first): nobody reads its answer
+			s.mu.Unlock()
+			return nil, false, errors.Errorf("call is over")
+		}
 		s.asked = append(s.asked, id)
 		s.logev(1, id)
 		fail := s.failed[id]
@@ -364,11 +373,13 @@ func (s *selector) call(
 	}
 	start := time.Now()
 	s.mu.Lock()
+	s.epoch++
+	ctx := context.WithValue(context.Background(), epochKey{}, s.epoch)
 	s.getNodes, s.nfail, s.failed = getNodes, nfail, map[int]bool{}
 	s.selected, s.asked, s.events, s.sorted, s.heights = nil, nil, nil, nil, nil
 	s.mu.Unlock()
 	res.Panic = h.Catch(func() {
-		pr, err := s.ps.Select(context.Background(), point, prev, wait)
+		pr, err := s.ps.Select(ctx, point, prev, wait)
 		s.mu.Lock()
 		res.Selected, res.Asked, res.Sorted = dedupe(s.selected), dedupe(s.asked), s.sorted
 		res.Events = append([][2]int{}, s.events...)
